@@ -229,6 +229,13 @@ def prove_one(task):
             import json as _json
             from .source import skeleton
             fps = _json.load(open(os.path.join(os.path.dirname(os.path.dirname(os.path.abspath(__file__))), "specs", "fingerprints.json")))
+            try:
+                from .source import text_hash
+                fpt = _json.load(open(os.path.join(os.path.dirname(os.path.dirname(os.path.abspath(__file__))), "specs", "fingerprints_text.json")))
+                if key in fpt and fpt[key] != text_hash(fn):
+                    out["restructured"] = True  # for the vacuity classification: the text the contract was attached to has changed
+            except FileNotFoundError:
+                pass
             if key in fps and fps[key] != skeleton(fn):
                 out["restructured"] = True
                 for r in out["obligations"]:
